@@ -1,6 +1,7 @@
 package main
 
 import (
+	"fmt"
 	"bufio"
 	"flag"
 	"math"
@@ -66,6 +67,9 @@ var prevDayEndC1 = math.NaN()
 var prevDayEndZeit = -1
 var prevDayEndStorage = math.NaN()
 var prevDayEndGRW = math.NaN()
+var gwfcPrevZeit = -10
+var gwfcPrevGRW = math.NaN()
+var gwfcChanged = false
 
 func nsum(g *hermes.GlobalVarsMain) (c1, minp, minC1 float64) {
 	minC1 = math.Inf(1)
@@ -90,6 +94,7 @@ func storage(g *hermes.GlobalVarsMain, which int) float64 {
 func traceLine(work, line string, lineNo int, r *rng, waterEvery int) {
 	var day, nday dayAcc
 	prevDayEndZeit = -1
+	gwfcPrevZeit, gwfcPrevGRW, gwfcChanged = -10, math.NaN(), false
 	var pre struct {
 		g  hermes.GlobalVarsMain
 		l  hermes.WaterSharedVars
@@ -99,6 +104,28 @@ func traceLine(work, line string, lineNo int, r *rng, waterEvery int) {
 	hermes.VerifProbe = func(stage string, zeit, subd int, wdt float64, g *hermes.GlobalVarsMain, w *hermes.WaterSharedVars, n *hermes.NitroSharedVars) {
 		switch stage {
 		case "evatra-pre":
+			// C06/C15: the groundwater-change block of run.go on the backup route (explicit values or a PTF):
+			// after a change the capacities are set_fc_gw(level, saved values); nothing else moves them
+			if g.PTF != 0 || g.CAPPAR != 0 {
+				if zeit == gwfcPrevZeit+1 && g.GRW != gwfcPrevGRW {
+					gwfcChanged = true
+					emit(jobj{"k": "gwfc", "line": lineNo, "zeit": zeit, "in": jobj{"grw": hx(g.GRW), "w": hxs(g.W_Backup[:g.N]), "porges": hxs(g.PORGES_Backup[:g.N])}, "out": hxs(g.W[:g.N])})
+				}
+				if gwfcChanged {
+					first := int(g.GRW + 1)
+					for l := 1; l <= g.N; l++ {
+						w, fc, ps := g.W[l-1], g.W_Backup[l-1], g.PORGES_Backup[l-1]
+						bad := (l < first && w != fc) || (l > first && w != ps) ||
+							(l == first && (w < math.Min(fc, ps)-1e-12 || w > math.Max(fc, ps)+1e-12)) ||
+							g.WMIN[l-1] != g.WMIN_Backup[l-1] || g.PORGES[l-1] != ps || g.WNOR[l-1] != g.WNOR_Backup[l-1]
+						if bad {
+							oracleFail("fc-after-gw-change line=%d zeit=%d layer=%d grw=%v w=%v soil-fc=%v pore-volume=%v wmin=%v soil-wmin=%v", lineNo, zeit, l, g.GRW, w, fc, ps, g.WMIN[l-1], g.WMIN_Backup[l-1])
+							break
+						}
+					}
+				}
+			}
+			gwfcPrevZeit, gwfcPrevGRW = zeit, g.GRW
 			c1, minp, minC1 := nsum(g)
 			nday = dayAcc{nC1: c1, nAufna: g.AUFNASUM, nMin: minp, nUms: g.UMS, nN2o: g.N2onitsum, nOut: g.OUTSUM, nDrain: g.DRAINLOSS, nDenit: g.CUMDENIT, nMinC1: minC1}
 			// deposition / irrigation N since yesterday's end of day (C02)
@@ -209,7 +236,7 @@ func traceLine(work, line string, lineNo int, r *rng, waterEvery int) {
 			res := s1 - expect
 			scale := math.Abs(day.s0) + math.Abs(day.fluss0) + math.Abs(day.sumQ) + math.Abs(day.sumTP)
 			emit(jobj{"k": "day", "line": lineNo, "zeit": zeit, "steps": day.steps, "wdt": hx(day.wdt), "s0": hx(day.s0), "s1": hx(s1),
-				"grw": g.GRW, "wurz": g.WURZ, "fluss0": hx(day.fluss0), "tp": hx(day.sumTP), "q": hx(day.sumQ), "qd": hx(day.sumQD), "res": res, "excluded": day.excluded})
+				"grw": g.GRW, "wurz": g.WURZ, "akf": g.AKF.Index, "crop": fmt.Sprint(g.FRUCHT[g.AKF.Index]), "saat": g.SAAT[g.AKF.Index], "ernte": g.ERNTE[g.AKF.Index], "fluss0": hx(day.fluss0), "tp": hx(day.sumTP), "q": hx(day.sumQ), "qd": hx(day.sumQD), "res": res, "excluded": day.excluded})
 			// C06: bounds and finiteness at the end of the day
 			maxCaps := 0.0
 			for _, c := range g.CAPS {
